@@ -32,8 +32,20 @@ pub enum Echo {
     Std,
     H(Obs),
 }
+/// Side channel for the TEXT of the last `StdError::GenericErr` converted into `Echo`: (length, first byte).
+/// `Echo::Std` itself stays a unit variant, so every harness that only asks "an error of the Std kind" is
+/// unaffected; harnesses on clauses that name the error text read it with `last_generic_text()`.
+pub static mut LAST_GENERIC_TEXT: (u64, u8) = (u64::MAX, 0);
+pub fn last_generic_text() -> (u64, u8) {
+    unsafe { LAST_GENERIC_TEXT }
+}
 impl From<StdError> for Echo {
     fn from(e: StdError) -> Self {
+        if let StdError::GenericErr { msg, .. } = &e {
+            let b = msg.as_bytes();
+            let first = if b.is_empty() { 0 } else { b[0] };
+            unsafe { LAST_GENERIC_TEXT = (b.len() as u64, first) };
+        }
         // leaked on purpose: the drop glue of StdError's Backtrace (frames, symbols, io::Error ...) is
         // symbolically executed by CBMC at every conversion and dominated whole harnesses
         core::mem::forget(e);
